@@ -17,6 +17,9 @@ pub struct Case {
     pub script: Vec<Call>,
     /// fail the k-th sink write (None: infallible sink)
     pub sink_fail_at: Option<usize>,
+    /// how the injected sink error is built (iowrap::set_err_style; 6 WouldBlock, 7 Interrupted, 8 TimedOut)
+    #[serde(default)]
+    pub sink_err_style: u8,
     /// for valid known-size streams: offset at which the payload ends, and the exact output
     pub payload_end: Option<usize>,
     #[serde(with = "hexser")]
@@ -211,6 +214,7 @@ impl Property for C16 {
             opts,
             script,
             sink_fail_at: a.sink_fail.map(|x| x as usize),
+            sink_err_style: if a.sink_fail.is_some() { [0u8, 6, 7, 8, 2, 6][(a.osel as usize / 7) % 6] } else { 0 },
             payload_end,
             expected,
             finish_ok,
@@ -218,7 +222,7 @@ impl Property for C16 {
         }
     }
     fn rule(&self) -> String {
-        "proptest generates call histories over one Stream: single write() calls with generated piece sizes (0, 1..7, 1..40, large), flush(), get_output(), ended by finish(), over inputs {valid stream, byte-mutated (corrupt) stream, over-long input = complete size-bounded stream followed by garbage / zero bytes / a second payload, random bytes}, occasionally with a sink that fails at its k-th write. The harness' model has three states: Live -> Failed at the first write() that returns Err; Live -> Complete when a write returns with the input position at or beyond the end of a size-bounded payload. Invariants checked after every call: Failed: every later write returns Ok(0) or Err, the sink receives nothing further, finish() is Err. Complete: every later non-empty write returns Ok(0), the sink receives nothing further until finish(), finish() is Ok with exactly the expected output. No call panics (checked build). Non-trivial = at least one call after the transition; distinct = SipHash of (input, options, script).".into()
+        "proptest generates call histories over one Stream: single write() calls with generated piece sizes (0, 1..7, 1..40, large), flush(), get_output(), ended by finish(), over inputs {valid stream, byte-mutated (corrupt) stream, over-long input = complete size-bounded stream followed by garbage / zero bytes / a second payload, random bytes}, occasionally with a sink that fails at its k-th write (error kinds Other, BrokenPipe, WouldBlock, Interrupted, TimedOut: a write that returned an error latches whatever the kind). The harness' model has three states: Live -> Failed at the first write() that returns Err; Live -> Complete when a write returns with the input position at or beyond the end of a size-bounded payload. Invariants checked after every call: Failed: every later write returns Ok(0) or Err, the sink receives nothing further, finish() is Err. Complete: every later non-empty write returns Ok(0), the sink receives nothing further until finish(), finish() is Ok with exactly the expected output. No call panics (checked build). Non-trivial = at least one call after the transition; distinct = SipHash of (input, options, script).".into()
     }
     fn required_classes(&self, tier: Tier) -> Vec<(&'static str, u64)> {
         let k = tier.pick(1, 10);
@@ -240,6 +244,15 @@ impl Property for C16 {
             ..Default::default()
         };
         st.eval();
+        let _style = crate::iowrap::set_err_style(c.sink_err_style);
+        if c.sink_fail_at.is_some() {
+            st.class(match c.sink_err_style {
+                6 => "sink error kind: WouldBlock",
+                7 => "sink error kind: Interrupted (write_all retries it)",
+                8 => "sink error kind: TimedOut",
+                _ => "sink error kind: Other/BrokenPipe",
+            });
+        }
         let r = sut::stream_run(&c.input, &c.opts, &c.script, &sink, true);
         st.class(&format!("input:{}", c.kind));
         let what = |msg: &str, i: usize| -> String {
